@@ -4,6 +4,8 @@
      accepts k=<n> limit=<n> trace=<s0,d0,..,r> slots=<..>   -> ok <0|1>
      lang k=<n> limit=<n> trace=<..>                         -> ok <0|1>
      race ensemble                                           -> ok norace
+     named k=<n> limit=<n> strategy=<..> algs=<name.value,..>
+         -> ok slots=<values> sat=<n|-> early=<0|1> over=<0|1> calls=<value>x<count>,..
    Results are identified by the index of the algorithm that produced them (R = nat, res = id). *)
 From Coq Require Import String.
 From Coq Require Import List NArith ZArith Bool.
@@ -75,6 +77,42 @@ Definition run_accepts (k limit : nat) (t : list event) (slots : list N) : list 
   | None => r_ok (print_bool false)
   end.
 
+(* ---- named k=<n> limit=<n> strategy=<..> algs=<name.value,..> ----
+   Position i of the list holds algorithm value <value> (the same value at two positions = the same
+   algorithm instance listed twice) whose String() is name number <name>.  The transition system is
+   parametric in `res` only: names do not occur in it, so they are parsed and ignored -- every
+   listed position is spawned, run and stored, whatever the algorithms are called. *)
+Definition parse_alg (s : list N) : option (nat * nat) :=
+  match split 46 s with
+  | [n; v] => match parse_nat n, parse_nat v with Some a, Some b => Some (a, b) | _, _ => None end
+  | _ => None
+  end.
+
+Fixpoint count_occ_nat (x : nat) (l : list nat) : nat :=
+  match l with [] => O | y :: r => if Nat.eqb x y then S (count_occ_nat x r) else count_occ_nat x r end.
+Fixpoint dedup (seen l : list nat) : list nat :=
+  match l with
+  | [] => []
+  | x :: r => if existsb (Nat.eqb x) seen then dedup seen r else x :: dedup (x :: seen) r
+  end.
+
+Definition run_named (k limit : nat) (strategy : list N) (algs : list (nat * nat)) : list N :=
+  let vals := map snd algs in
+  if negb (Nat.eqb (length vals) k) then r_badcase else
+  match order_of k strategy with
+  | None => r_badcase
+  | Some order =>
+      let o := simulate nat k limit (fun i => nth i vals O) order in
+      if o_returned o then
+        r_ok ($"slots=" ++ print_slots (o_slots o)
+              ++ $" sat=" ++ (if is_free strategy then [45] else print_nat (o_sat o))
+              ++ $" early=" ++ print_bool (o_early o)
+              ++ $" over=" ++ print_bool (o_over o)
+              ++ $" calls=" ++ print_list (fun v => print_nat v ++ [120] ++ print_nat (count_occ_nat v vals))
+                                          (dedup [] vals))
+      else r_ok $"stuck"
+  end.
+
 Definition run (line : list N) : list N :=
   match split sp line with
   | [f; a] =>
@@ -106,6 +144,15 @@ Definition run (line : list N) : list N :=
         | Some ks, Some ls, Some ts, Some sl =>
             match parse_nat ks, parse_nat ls, parse_list parse_event ts with
             | Some k, Some limit, Some t => run_accepts k limit t sl
+            | _, _, _ => r_badcase
+            end
+        | _, _, _, _ => r_badcase
+        end
+      else if str_eqb f $"named" then
+        match strip_prefix $"k=" a, strip_prefix $"limit=" b, strip_prefix $"strategy=" c, strip_prefix $"algs=" d with
+        | Some ks, Some ls, Some st, Some al =>
+            match parse_nat ks, parse_nat ls, parse_list parse_alg al with
+            | Some k, Some limit, Some algs => run_named k limit st algs
             | _, _, _ => r_badcase
             end
         | _, _, _, _ => r_badcase
